@@ -90,6 +90,9 @@ func buildEngine(p *propCfg) string {
 	if altTag != "" {
 		suffix = "." + altTag
 	}
+	if p.Overlay == "simrt" {
+		suffix += ".simrt" // instrumented build: its own binary
+	}
 	out := filepath.Join(root, ".build", p.Engine+suffix+".test")
 	args := []string{"test", "-c", "-tags", "verif", "-o", out}
 	if p.Race {
@@ -388,7 +391,7 @@ func main() {
 				"VERIF_REPLAY_DIR=" + replayDir,
 				"VERIF_CURRENT=" + cur,
 			}
-			rep, exit, log := runWorker(bin, p, runDir, name, env, remain+5*time.Minute)
+			rep, exit, log := runWorker(bin, p, runDir, name, env, remain+10*time.Minute)
 			jr := &jobResult{job: j, rep: rep, log: log, exit: exit, current: cur}
 			if rep == nil || !rep.Complete {
 				jr.died = true
